@@ -43,6 +43,11 @@ add("C06", "runtime monitor: offline history checker over (rx frame, indications
     "Histories stay well inside itsGnLifetimeLocTE so that the DPL is never reset by entry expiry; omitted forwards (PDR limit, size control, SCF stub) are allowed.",
     "DESIGN.md 3/C06")
 
+add("C12", "runtime monitor: reference map model stepped in lock-step with a real LDM, full-content and registry comparison after every IF.LDM.3/4 call",
+    "Exploration: histories of 10..300 register/deregister (provider and consumer, incl. invalid ids and permission sets), add, update (same/other type, unknown id, unregistered requester), delete, typed request, virtual clock advance and explicit maintenance passes drive a real LDM facility (reactive service and maintenance; Dictionary back-end, TinyDB in a temp dir for a smaller share); after every step the unfiltered content seen by an auditor consumer and both registries are compared with the model: content/timestamp/location/validity as added, update changes content only, deleted or expired-and-collected objects never return, refused requests have no effect, identifiers never reused, no operation changes another object or a registration.",
+    "Expiry is judged outside +-1 s of timestamp+validity and 'gone' only after an explicit maintenance pass that followed both the expiry and the add; outcomes on expired-but-uncollected objects are accepted either way; registration follows the LDM's own responses.",
+    "DESIGN.md 3/C12")
+
 NOT_YET = "check not built yet (work in progress; runtime monitor planned in DESIGN.md section 3)"
 
 def main():
